@@ -49,7 +49,8 @@ def tree_hashes():
 class _Names:
     """name <-> nat.  Fixed pool first so that ids are stable across runs."""
     POOL = ['a', 'b', 'c', 'd', 'e', 'f', 'x', 'y', 'z', 'w',
-            'args', 'kwargs', 'p', 'k', 'self', 'func', 'zz', 'u', 'v', 'q']
+            'args', 'kwargs', 'p', 'k', 'self', 'func', 'zz', 'u', 'v', 'q',
+            'sub']     # 21 = Proto.subName in Model/Protocol.lean: the name of every nested definition of a generated program
 
     def __init__(self):
         self.ids = {n: i + 1 for i, n in enumerate(self.POOL)}
